@@ -74,3 +74,85 @@ task("SequentialRunner._generate_markets[count-range-names]", props=["C18"], fun
     lambda: expansion_task("SequentialRunner._generate_markets", "numMarkets", "n_markets", "market_settings"))
 task("SequentialRunner._generate_agents[count-range-names]", props=["C18"], functions=["SequentialRunner._generate_agents"], replay="config")(
     lambda: expansion_task("SequentialRunner._generate_agents", "numAgents", "n_agents", "agent_settings"))
+
+
+# ----------------------------------------------------------------------------- JsonRandom.random: randomised values fall in the documented support (C18)
+def jr_view(st, jv):
+    d = V(("dict", ("str",), ("dyn",)), dyn_ref(jv.term))
+    lst = dyn_ref(jv.term)
+    le = lambda ref, i: z3.Select(st.elems(ref, ("dyn",)), i)
+    return d, lst, le
+
+
+def numv(v):
+    return z3.If(dyn_is_int(v), z3.ToReal(dyn_int(v)), dyn_real(v))
+
+
+def is_num(v):
+    return z3.Or(dyn_is_int(v), dyn_is_real(v), dyn_is_bool(v))
+
+
+DIST = [("const", 1), ("uniform", 2), ("normal", 2), ("expon", 1)]
+
+
+def jr_shape(st, jv):
+    """well-formedness of a distribution specification, and the argument lists"""
+    d, lst, le = jr_view(st, jv)
+    v = jv.term
+    size = z3.Function("dict_size_String", z3.ArraySort(z3.StringSort(), z3.BoolSort()), z3.IntSort())(st.dict_dom(d))
+    arg = lambda k: z3.Select(st.dict_val(d), z3.StringVal(k))
+    hask = lambda k: z3.Select(st.dict_dom(d), z3.StringVal(k))
+    good_list = z3.And(dyn_is_list(v), st.length(lst, ("dyn",)) == 2)
+    branch = {}
+    prev = []
+    for k, n in DIST:
+        branch[k] = z3.And(dyn_is_dict(v), z3.Not(dyn_is_list(v)), size == 1, hask(k), *[z3.Not(hask(p)) for p in prev])
+        prev.append(k)
+    good_dict = z3.Or(*[z3.And(branch[k], dyn_is_list(arg(k)), st.length(dyn_ref(arg(k)), ("dyn",)) == n) for k, n in DIST])
+    plain = z3.And(z3.Not(dyn_is_list(v)), z3.Not(dyn_is_dict(v)))
+    return dict(good_list=good_list, good_dict=good_dict, plain=plain, branch=branch, arg=arg, le=le, lst=lst)
+
+
+def jr_pre(st, a):
+    jv = a["json_value"]; sh = jr_shape(st, jv)
+    i = z3.Int("i_jr")
+    nums = [z3.ForAll([i], z3.Implies(z3.And(dyn_is_list(jv.term), 0 <= i, i < st.length(sh["lst"], ("dyn",))), is_num(sh["le"](sh["lst"], i))))]
+    for k, n in DIST:
+        ar = sh["arg"](k)
+        nums.append(z3.ForAll([i], z3.Implies(z3.And(dyn_is_list(ar), 0 <= i, i < st.length(dyn_ref(ar), ("dyn",))), is_num(sh["le"](dyn_ref(ar), i)))))
+    return [("list elements of a distribution specification are numbers; a plain value is a number", z3.And(*nums, z3.Implies(sh["plain"], is_num(jv.term)))),
+            ("a JSON value has one shape (list, dict or scalar)", z3.Not(z3.And(dyn_is_list(jv.term), dyn_is_dict(jv.term))))]
+
+
+def jr_post(st0, st1, a, res):
+    jv = a["json_value"]; sh = jr_shape(st0, jv)
+    r = res.term
+    e = lambda ref, i: numv(sh["le"](ref, z3.IntVal(i)))
+    ar = lambda k: dyn_ref(sh["arg"](k))
+    lo, hi = e(sh["lst"], 0), e(sh["lst"], 1)
+    ulo, uhi = e(ar("uniform"), 0), e(ar("uniform"), 1)
+    def unif(lo_, hi_):
+        return z3.And(z3.Implies(lo_ < hi_, z3.And(lo_ <= r, r < hi_)), z3.Implies(lo_ == hi_, r == lo_), z3.Implies(lo_ > hi_, z3.And(hi_ < r, r <= lo_)))
+    b = sh["branch"]
+    return [("[min, max]: uniform on [min, max)", z3.Implies(sh["good_list"], unif(lo, hi))),
+            ("{'uniform': [min, max]}: uniform on [min, max)", z3.Implies(z3.And(sh["good_dict"], b["uniform"]), unif(ulo, uhi))),
+            ("{'const': [v]}: exactly v", z3.Implies(z3.And(sh["good_dict"], b["const"]), r == e(ar("const"), 0))),
+            ("{'expon': [lam]}: non-negative for lam >= 0", z3.Implies(z3.And(sh["good_dict"], b["expon"], e(ar("expon"), 0) >= 0), r >= 0)),
+            ("a plain number is returned as it is", z3.Implies(sh["plain"], r == numv(jv.term)))]
+
+
+def jr_raises(st, a):
+    sh = jr_shape(st, a["json_value"])
+    return z3.Not(z3.Or(sh["good_list"], sh["good_dict"], sh["plain"]))
+
+
+JSON_RANDOM = FSpec("JsonRandom.random", pre=jr_pre, post=jr_post, raises={"ValueError": jr_raises}, props=("C18",), param_types={"json_value": ("dyn",)}, result=("real",))
+
+
+@task("JsonRandom.random", props=["C18"], functions=["JsonRandom.random", "JsonRandom._next_uniform", "JsonRandom._next_normal", "JsonRandom._next_exponential"], replay="config")
+def t_json_random():
+    obl, info = JSON_RANDOM.verify()
+    for ob in obl:
+        if ob["name"].endswith("log-of-positive") and z3.is_gt(ob["goal"]):
+            ob["region"] = [ob["goal"].arg(0) != 0]       # known finding: the draw 0.0 (probability 2^-53) -- everything else must be proved
+    return {"obligations": obl, "info": [info]}
